@@ -284,12 +284,12 @@ Lemma field_edge_ok p ns c x : wf_ann (f_ann x) = true -> leaf_ok p (f_ann x) = 
 Proof.
   destruct x as [n pr t d df]. unfold field_edge, field_edges, target, locals_in. cbn [f_ann f_name f_default f_factory].
   intros W L Hl.
-  destruct t as [b|c'|e|a|k a|a|n'|a|a|k v|o| |n']; try discriminate W;
+  destruct t as [b|c'|e|a|k a|a|n'|a|a|k v|o| |n'|pp u1 u2]; try discriminate W;
     try (destruct b; try discriminate W; reflexivity);
     try reflexivity;
     try (unfold leaf_ok in L; cbn in L; cbn in Hl; cbn; try rewrite Hl; unfold resolve_name;
          destruct (find_decl p n') as [d'|]; try discriminate L; destruct (d_kind d'); cbn; try rewrite Hl; reflexivity);
-    destruct a as [b|c'|e|a|k' a|a|n'|a|a|k' v|o| |n']; try discriminate W;
+    destruct a as [b|c'|e|a|k' a|a|n'|a|a|k' v|o| |n'|pp u1 u2]; try discriminate W;
     try (destruct b; try discriminate W); try (destruct k); try reflexivity;
     unfold leaf_ok in L; cbn in L; cbn in Hl; cbn; try rewrite Hl; unfold resolve_name;
     destruct (find_decl p n') as [d'|]; try discriminate L; destruct (d_kind d'); cbn; try rewrite Hl; reflexivity.
@@ -299,11 +299,11 @@ Lemma resolve_ok p ns t : wf_ann t = true -> leaf_ok p t = true -> locals_in ns 
   exists rt, resolve p ns t = Ok rt.
 Proof.
   unfold locals_in. intros W L Hl.
-  destruct t as [b|c'|e|a|k a|a|n'|a|a|k v|o| |n']; try discriminate W;
+  destruct t as [b|c'|e|a|k a|a|n'|a|a|k v|o| |n'|pp u1 u2]; try discriminate W;
     try (eexists; reflexivity);
     try (unfold leaf_ok in L; cbn in L; cbn in Hl; cbn; try rewrite Hl; unfold resolve_name;
          destruct (find_decl p n') as [d'|]; try discriminate L; eexists; reflexivity);
-    destruct a as [b|c'|e|a|k' a|a|n'|a|a|k' v|o| |n']; try discriminate W;
+    destruct a as [b|c'|e|a|k' a|a|n'|a|a|k' v|o| |n'|pp u1 u2]; try discriminate W;
     try (eexists; reflexivity);
     unfold leaf_ok in L; cbn in L; cbn in Hl; cbn; try rewrite Hl; unfold resolve_name;
     destruct (find_decl p n') as [d'|]; try discriminate L; eexists; reflexivity.
